@@ -244,10 +244,18 @@ Definition appended (fw : fw_mode) (ct : conn_type) (c : fw_ctx) : list property
 Definition props_list (fw : fw_mode) (ct : conn_type) (c : fw_ctx) : list property :=
   (match props c with Some l => l | None => [] end) ++ appended fw ct c.
 
-(* json.Marshal of the slice: a nil slice to which nothing was appended prints as null *)
-Definition impl_props_json (fw : fw_mode) (ct : conn_type) (c : fw_ctx) : bytes :=
+(* PRE-FIX code (before commit 5dc4db8, finding C19-1): json.Marshal of the slice as it was; a nil
+   slice to which nothing was appended printed as null *)
+Definition prefix_props_json (fw : fw_mode) (ct : conn_type) (c : fw_ctx) : bytes :=
   match props c, appended fw ct c with
   | None, [] => json_null
+  | _, _ => json_array (props_list fw ct c)
+  end.
+(* the code as it is now: `if properties == nil { properties = []profile.Property{} }` before
+   json.Marshal, so a nil slice to which nothing was appended prints as [] *)
+Definition impl_props_json (fw : fw_mode) (ct : conn_type) (c : fw_ctx) : bytes :=
+  match props c, appended fw ct c with
+  | None, [] => json_array []
   | _, _ => json_array (props_list fw ct c)
   end.
 (* what the property demands: always a JSON property list *)
@@ -257,7 +265,7 @@ Definition spec_props_json (fw : fw_mode) (ct : conn_type) (c : fw_ctx) : bytes 
 Definition forwarding_address (pj : bytes) (c : fw_ctx) : bytes :=
   srv_addr c ++ [0] ++ host_str (remote c) ++ [0] ++ undashed (uuid c) ++ [0] ++ pj.
 
-(* recorded finding 1: legacy mode, nil properties, nothing appended *)
+(* input class of finding C19-1 (fixed): legacy mode, nil properties, nothing appended *)
 Definition trigger_null (fw : fw_mode) (ct : conn_type) (c : fw_ctx) : bool :=
   match props c, appended fw ct c with None, [] => true | _, _ => false end.
 
